@@ -5,12 +5,13 @@ import llrb
 
 PROP = 'C01'
 NAME = 'tree'
-OPS = {'PUT': 1, 'REMOVE': 2, 'GET': 3, 'MIN': 4, 'MAX': 5, 'SIZE': 6, 'CLEAR': 7, 'CTOR': 8, 'WALK': 9, 'WALK_AFTER': 10, 'NEAREST': 11}
+OPS = {'SELFCHECK': 12, 'PUT': 1, 'REMOVE': 2, 'GET': 3, 'MIN': 4, 'MAX': 5, 'SIZE': 6, 'CLEAR': 7, 'CTOR': 8, 'WALK': 9, 'WALK_AFTER': 10, 'NEAREST': 11}
 FUNCS = {'PUT': ['qtreetbl_putobj', 'qtreetbl_put', 'put_obj', 'new_obj', 'rotate_left', 'rotate_right', 'flip_color', 'qmemdup'],
          'REMOVE': ['qtreetbl_removeobj', 'qtreetbl_remove', 'remove_obj', 'remove_min', 'move_red_left', 'move_red_right', 'fix', 'find_min'],
          'GET': ['qtreetbl_getobj', 'qtreetbl_get', 'find_obj', 'qtreetbl_byte_cmp'], 'MIN': ['qtreetbl_find_min'], 'MAX': ['qtreetbl_find_max'],
          'SIZE': ['qtreetbl_size'], 'CLEAR': ['qtreetbl_clear', 'free_objs'], 'CTOR': ['qtreetbl', 'qtreetbl_free'],
-         'WALK': ['qtreetbl_getnext', 'reset_iterator'], 'WALK_AFTER': ['qtreetbl_getnext', 'reset_iterator', 'put_obj', 'remove_obj'], 'NEAREST': ['qtreetbl_find_nearest', 'qtreetbl_getnext']}
+         'WALK': ['qtreetbl_getnext', 'reset_iterator'], 'WALK_AFTER': ['qtreetbl_getnext', 'reset_iterator', 'put_obj', 'remove_obj'], 'NEAREST': ['qtreetbl_find_nearest', 'qtreetbl_getnext'],
+         'SELFCHECK': ['qtreetbl_check', 'node_check_root', 'node_check_red', 'node_check_black', 'node_check_llrb']}
 _cache = {}
 
 
@@ -98,14 +99,29 @@ def cases(tier, mode='func'):
 
 
 def shape_cases(tier):
-    """C02: same one-step queries with the shape checkers compiled in (independent checker + qtreetbl_check) and the lookup-cost bound"""
+    """C02: (1) the one-step put/remove queries with the independent shape checker compiled in (invariant closure);
+    (2) lookup cost through a counting comparator; (3) qtreetbl_check() agrees with the independent checker on every valid
+    tree up to one node above the step bound (so it accepts every post-state of (1)) and on EVERY coloured binary tree up to a
+    small size, valid or not; (4) for tiny trees the library check is also asserted directly on the symbolic post-state."""
     q = tier == 'quick'
+    nstep = 5 if q else 8
     out = []
-    for sh in shapes(6 if q else 9):
+    for sh in shapes(nstep):
         for op in ('PUT', 'REMOVE'):
             for vd, sfx in ([({}, ''), ({'VF_CMP': 2}, '.rcmp')] if sh['n'] <= 4 else [({}, '')]):
-                out.append(tree_case('c02', sh, op, dict(vd, VF_SHAPECHK=None), sfx=sfx))
+                e = dict(vd, VF_SHAPECHK=None)
+                if sh['n'] <= 3:
+                    e['VF_LIBCHK'] = None
+                out.append(tree_case('c02', sh, op, e, sfx=sfx))
         out.append(tree_case('c02', sh, 'GET', {'VF_CMP': 1, 'VF_SHAPECHK': None}, sfx='.ucmp'))
+    for sh in shapes(nstep + 1):
+        out.append(tree_case('c02', sh, 'SELFCHECK', {'VF_VALID': 1}, sfx='.valid'))
+    for n in range(0, (3 if q else 4) + 1):
+        for t in llrb.all_coloured(n):
+            if llrb.is_valid(t):
+                continue
+            sh = llrb.encode(t)
+            out.append(tree_case('c02', sh, 'SELFCHECK', {'VF_VALID': 0}, sfx='.invalid'))
     out.append(tree_case('c02', shapes(0)[0], 'CTOR', {'VF_SHAPECHK': None}))
     return out
 
